@@ -125,8 +125,10 @@ func universes(thorough bool) []*universe {
 		// Local policy with a selector of two labels: the backend key of two such services must be equal however it is computed
 		{"p443-k1-local2labels", mkSvc(ports(443), share("k1"), local(map[string]string{"app": "a", "tier": "x"}))},
 		{"p8080-k1-local2labels", mkSvc(ports(8080), share("k1"), local(map[string]string{"app": "a", "tier": "x"}))},
+		// one port number under two protocols (its UDP half clashes with p80udp-k1, its TCP half with p80-k1)
+		{"p80tcp+udp-k1", mkSvc(ports(80), udp(80), share("k1"))},
 	}
-	shareSlotVs := map[int][]int{2: {0, 2, 7, 9, 16}, 1: {0, 1, 2, 3, 4, 5, 6, 7, 8, 9, 10, 11, 12, 14, 15}, 0: {0, 1, 2, 3, 4, 5, 6, 7, 8, 9, 10, 11, 12, 13, 14}}
+	shareSlotVs := map[int][]int{2: {0, 2, 7, 9, 16, 12}, 1: {0, 1, 2, 3, 4, 5, 6, 7, 8, 9, 10, 11, 12, 14, 15, 17}, 0: {0, 1, 2, 3, 4, 5, 6, 7, 8, 9, 10, 11, 12, 13, 14}}
 	if thorough {
 		shareSlotVs = nil
 	}
@@ -251,6 +253,8 @@ func universes(thorough bool) []*universe {
 		{"no-clusterip", mkSvc(noClusterIP())},
 		// PreferDualStack on a cluster that gave the service one family only
 		{"prefer-one-clusterip", mkSvc(families(v1.IPFamilyPolicyPreferDualStack, "192.168.9.1"))},
+		// a dual-stack service that asks for ONE of the two addresses it may already hold (a request the controller refuses)
+		{"require-ip4-only", mkSvc(families(v1.IPFamilyPolicyRequireDualStack, "192.168.9.1", "fd00::1"), annot(AnnotationLoadBalancerIPs, "10.0.0.0"))},
 	}
 	dualSlotVs := map[int][]int{2: {0, 3}}
 	if thorough {
@@ -282,7 +286,8 @@ func universes(thorough bool) []*universe {
 		{"clusterip-statuswiped", mkSvc(clusterIPType())},
 	}
 	// ---- U-restart: crash stores written by hand (richer than what depth 3 reaches from an empty cluster) ----
-	restartVs := []namedVariant{{"auto", mkSvc()}, {"auto-k1-443", mkSvc(ports(443), share("k1"))}, {"ip1", mkSvc(lbIP("10.0.0.1"))}, {"clusterip", mkSvc(clusterIPType())}, {"prefer46", mkSvc(families(v1.IPFamilyPolicyPreferDualStack, "192.168.9.1", "fd00::1"))}}
+	restartVs := []namedVariant{{"auto", mkSvc()}, {"auto-k1-443", mkSvc(ports(443), share("k1"))}, {"ip1", mkSvc(lbIP("10.0.0.1"))}, {"clusterip", mkSvc(clusterIPType())}, {"prefer46", mkSvc(families(v1.IPFamilyPolicyPreferDualStack, "192.168.9.1", "fd00::1"))},
+		{"require", mkSvc(families(v1.IPFamilyPolicyRequireDualStack, "192.168.9.1", "fd00::1"))}}
 	restartLayouts := [][]metallbv1beta1.IPAddressPool{
 		{mkPool("a", []string{"10.0.0.0/30"}, nil)},
 		{mkPool("b", []string{"10.0.0.0/30"}, nil)},
@@ -304,6 +309,13 @@ func universes(thorough bool) []*universe {
 	}, slots3, restartVs, map[int][]int{0: {4}, 1: {0, 4}, 2: {0}})
 	r3.Preload = []preSvc{{0, 4, []string{"10.0.0.0"}, "a"}, {1, 0, nil, ""}}
 	us = append(us, r3)
+	// the same PreferDualStack service next to a dual-stack service that recorded both of its addresses (the first sync
+	// re-asserts services with more recorded addresses first, so the top-up cannot take the recorded IPv6 address)
+	r4 := mkUniverse("restart-prefer-topup+dualstack", ns12[:1], [][]metallbv1beta1.IPAddressPool{
+		{mkPool("a", []string{"10.0.0.0/31", "fc00::/127"}, nil)},
+	}, slots3, restartVs, map[int][]int{0: {4}, 1: {0}, 2: {5}})
+	r4.Preload = []preSvc{{0, 4, []string{"10.0.0.0"}, "a"}, {2, 5, []string{"10.0.0.1", "fc00::"}, "a"}}
+	us = append(us, r4)
 
 	us = append(us, mkUniverse("reconf", ns12, reLayouts, []slotT{{"ns1", "s1"}, {"ns1", "s2"}, {"ns2", "s3"}}, reVs, map[int][]int{2: {0, 2}}))
 	return us
